@@ -33,6 +33,8 @@ import (
 
 	. "verifharness/hx"
 
+	"github.com/NibiruChain/nibiru/v2/x/common/testutil/testapp"
+
 	tftypes "github.com/NibiruChain/nibiru/v2/x/tokenfactory/types"
 )
 
@@ -55,7 +57,7 @@ type c15Op struct {
 type c15Gen struct {
 	Denom string `json:"denom"`
 	Admin string `json:"admin"` // "" = renounced
-	Fund  []int64 `json:"fund"` // initial balance of each user
+	Fund  []int64 `json:"fund"` // initial balance of each account (users, then the three module accounts)
 }
 
 type c15Case struct {
@@ -84,6 +86,8 @@ type c15Obs struct {
 	Init    c15Snap    `json:"init"`
 	Ops     []c15OpObs `json:"ops"`
 }
+
+var moduleNames = []string{tftypes.ModuleName, authtypes.FeeCollectorName, govtypes.ModuleName}
 
 type c15World struct {
 	c      *Chain
@@ -268,11 +272,20 @@ func (w *c15World) runCase(t *testing.T, cs *c15Case) c15Obs {
 		}
 		c.App.TokenFactoryKeeper.InitGenesis(c.Ctx(), gs)
 		for _, g := range cs.Genesis {
-			for u := 0; u < nUsers && u < len(g.Fund); u++ {
-				if g.Fund[u] > 0 {
-					if err := c.Fund(w.addrs[u], sdk.NewCoins(sdk.NewInt64Coin(w.expand(g.Denom), g.Fund[u]))); err != nil {
-						t.Fatal(err)
-					}
+			for u := 0; u < nAccts && u < len(g.Fund); u++ {
+				if g.Fund[u] <= 0 {
+					continue
+				}
+				coins := sdk.NewCoins(sdk.NewInt64Coin(w.expand(g.Denom), g.Fund[u]))
+				var err error
+				if u < nUsers {
+					err = c.Fund(w.addrs[u], coins)
+				} else {
+					// module accounts (e.g. the fee collector after fees were paid in this denom)
+					err = testapp.FundModuleAccount(c.App.BankKeeper, c.Ctx(), moduleNames[u-nUsers], coins)
+				}
+				if err != nil {
+					t.Fatal(err)
 				}
 			}
 		}
@@ -520,7 +533,7 @@ func genC15Case(r *Rng) c15Case {
 		n := r.Range(1, 2)
 		for i := 0; i < n; i++ {
 			creator := r.Intn(nUsers)
-			gd := c15Gen{Denom: fmt.Sprintf("tf/@%d/gen%d", creator, i), Fund: []int64{0, 0, 0, 0}}
+			gd := c15Gen{Denom: fmt.Sprintf("tf/@%d/gen%d", creator, i), Fund: []int64{0, 0, 0, 0, 0, 0, 0}}
 			sd := &shadowDenom{denom: gd.Denom, admin: -1}
 			switch r.Pick(4, 3, 3) {
 			case 0: // renounced
@@ -533,9 +546,10 @@ func genC15Case(r *Rng) c15Case {
 				sd.admin = a
 				sd.former = []int{creator}
 			}
-			for u := 0; u < nUsers; u++ {
+			for u := 0; u < nAccts; u++ {
 				if r.Chance(1, 2) {
 					gd.Fund[u] = int64(r.Range(1, 200))
+					sd.holders = append(sd.holders, fmt.Sprintf("@%d", u))
 				}
 			}
 			cs.Genesis = append(cs.Genesis, gd)
@@ -600,13 +614,16 @@ func openers() []c15Case {
 			{T: "create", Sender: 0, Sub: "gold"}, {T: "mint", Sender: 0, Denom: D, Amt: 60, Target: "@3"},
 			{T: "burnnative", Sender: 3, Denom: D, Amt: 25}, {T: "burnnative", Sender: 2, Denom: D, Amt: 1}}},
 		// renounced and foreign-admin genesis denoms
-		{Genesis: []c15Gen{{Denom: "tf/@0/old", Admin: "", Fund: []int64{50, 50, 0, 0}}, {Denom: "tf/@1/lent", Admin: "@2", Fund: []int64{0, 10, 0, 0}}},
+		{Genesis: []c15Gen{{Denom: "tf/@0/old", Admin: "", Fund: []int64{50, 50, 0, 0}}, {Denom: "tf/@1/lent", Admin: "@2", Fund: []int64{0, 10, 0, 0, 30, 70, 40}}},
 			Ops: []c15Op{
 				{T: "mint", Sender: 0, Denom: "tf/@0/old", Amt: 5}, {T: "burn", Sender: 0, Denom: "tf/@0/old", Amt: 5},
 				{T: "admin", Sender: 0, Denom: "tf/@0/old", NewAdmin: "@0"}, {T: "create", Sender: 0, Sub: "old"},
 				{T: "mint", Sender: 1, Denom: "tf/@1/lent", Amt: 5}, {T: "mint", Sender: 2, Denom: "tf/@1/lent", Amt: 5},
 				{T: "burn", Sender: 2, Denom: "tf/@1/lent", Amt: 10, Target: "@1"}, {T: "admin", Sender: 2, Denom: "tf/@1/lent", NewAdmin: "@1"},
-				{T: "mint", Sender: 2, Denom: "tf/@1/lent", Amt: 5}, {T: "mint", Sender: 1, Denom: "tf/@1/lent", Amt: 5}}},
+				{T: "mint", Sender: 2, Denom: "tf/@1/lent", Amt: 5}, {T: "mint", Sender: 1, Denom: "tf/@1/lent", Amt: 5},
+				// module accounts that hold the coin: blocked ones cannot be burnt from, the gov account can
+				{T: "burn", Sender: 1, Denom: "tf/@1/lent", Amt: 7, Target: "@5"}, {T: "burn", Sender: 1, Denom: "tf/@1/lent", Amt: 7, Target: "@4"},
+				{T: "burn", Sender: 1, Denom: "tf/@1/lent", Amt: 7, Target: "@6"}}},
 	}
 }
 
